@@ -37,13 +37,15 @@ def gen_case(rng, tier, idx):
     if temp > 0:
         spec = gen_mdp_spec(rng, proper=True, discounts=(0.5, 0.8, 0.9), rewards=(-2.0, -1.0, -1.0, 0.0, 1.0, 0.5, 2.0))
     else:
-        spec = gen_mdp_spec(rng, proper=True, discounts=(0.5, 0.8, 0.9, 0.95, 1.0))
+        edge = rng.random()
+        spec = gen_mdp_spec(rng, proper=True, discounts=(0.999,) if edge < 0.02 else (0.5, 0.8, 0.9, 0.95, 1.0),
+                            rewards=(0.0,) if 0.02 <= edge < 0.04 else None)
     q0 = rng.choice((dict(kind='const', v=0.0), dict(kind='const', v=-1.0), dict(kind='const', v=2.5),
                      dict(kind='fn', base=rng.choice((0.0, -1.0, 1.0)), spread=0.25)))
-    cfg = dict(learner=rng.choice(LEARNERS), episodes=rng.randint(1, 6), step_size=rng.choice((0, 0.1, 0.5, 1.0, 0.3)),
-               rand_choose=rng.choice((0, 0.0, 0.1, 0.5, 1.0)), softmax_temp=temp, q0=q0, seed=rng.choice((0, 1, 7, 12345)),
+    cfg = dict(learner=rng.choice(LEARNERS), episodes=rng.randint(1, 6) if rng.random() < 0.98 else 0, step_size=rng.choice((0, 0.1, 0.5, 1.0, 0.3)),
+               rand_choose=rng.choice((0, 0.0, 0.1, 0.5, 1.0)), softmax_temp=temp, q0=q0, seed=rng.choice((0, 1, 7, 12345, None)),
                reentrant=rng.random() < 0.25, reuse=rng.randrange(1000) if rng.random() < 0.15 else None,
-               alias=rng.choice(('fresh', 'fresh', 'cached', 'shared')))
+               alias=rng.choice(('fresh', 'fresh', 'cached', 'shared', 'tuple')), explicit_lists=rng.random() < 0.15)
     plain = idx % 4 == 0     # fault-free baseline quarter
     sched = gen_sched(rng, ('P',) if plain else ('P', 'U', 'R', 'X'), thresholds=(0.5, float(cfg['rand_choose'])))
     if plain:
@@ -69,7 +71,7 @@ def execute(case, script=None):
     ctx = RunCtx(PROP, view)
     ctx.W = game_W(view)
     ctx.declare_probes('episode_from_absorbing_start', 'bootstrap_from_absorbing', 'argmax_tie',
-                       'listener_reentry', 'step_size_one', 'learner_reused')
+                       'listener_reentry', 'step_size_one', 'learner_reused', 'no_seed_given', 'zero_episodes')
     sched = make_scheduler(case, script, ctx)
     try:
         return _execute(td, view, cfg, ctx, sched)
@@ -78,7 +80,7 @@ def execute(case, script=None):
 
 
 def _execute(td, view, cfg, ctx, sched):
-    mdp = make_mdp(view, ctx, alias=cfg.get('alias', 'fresh'))
+    mdp = make_mdp(view, ctx, alias=cfg.get('alias', 'fresh'), explicit_lists=cfg.get('explicit_lists', False))
     g = view.gamma
     alpha, eps, temp = cfg['step_size'], cfg['rand_choose'], cfg['softmax_temp']
     q0f, q0arg = q0_fn(cfg, view)
@@ -90,6 +92,10 @@ def _execute(td, view, cfg, ctx, sched):
         lo = min(min(q0vals), rmin / (1 - g), 0.0)
         hi = max(max(q0vals), rmax / (1 - g), 0.0)
     cls = getattr(td, cfg['learner'])
+    if cfg['seed'] is None:
+        ctx.probe('no_seed_given')
+    if cfg['episodes'] == 0:
+        ctx.probe('zero_episodes')
     is_dq = cfg['learner'] == 'DoubleQLearning'
 
     def init_row(s):
